@@ -389,7 +389,9 @@ func (u *Unit) checkReturn(f *Frame, rst *State, rets []Val) {
 		penv.pkg = rootFn(fn).Pkg.Pkg
 	}
 	penv.lookup = func(penv *Env, name string) (TV, bool) {
-		if tv, ok := extra[name]; ok {
+		if strings.HasPrefix(name, "var_") && len(name) > 4 {
+			name = name[4:] // the program variable of that name, not the contract word
+		} else if tv, ok := extra[name]; ok {
 			return tv, true
 		}
 		nm := name
